@@ -15,7 +15,8 @@ EXTENDS Naturals, Integers, Sequences, FiniteSets, TLC
 
 CONSTANTS
   Mutation,      \* "none", or the name of a seeded defect of the formatter (negative controls)
-  NilDictIsNull  \* FALSE: as coded (a nil Dict is written "<<>>"); TRUE: written "null" like a nil Array
+  NilDictIsNull  \* TRUE: a nil Dict is written "null" like a nil Array (types.go since the repair of
+                 \* finding C01/nil-dict); FALSE: the formatter before it ("<<>>"), a negative control
 
 -----------------------------------------------------------------------------
 (* 7.2.3  Character set *)
